@@ -376,6 +376,20 @@ impl CredentialStore for Seam {
         };
         if res.is_ok() {
             self.publish();
+            // "accepted" means the backing store really holds the record now, not merely Ok(())
+            let stored = {
+                let mut w = lk(&self.world);
+                let stored = w.contents.contains(&snap);
+                if !stored {
+                    w.fire("store_ok_without_storing");
+                    w.log(Ev::SaveRet { result: Ok(()), injected: false });
+                }
+                stored
+            };
+            if !stored {
+                YieldN(post).await;
+                return res;
+            }
             let mut w = lk(&self.world);
             match w.creds.iter_mut().find(|c| c.id == snap.id) {
                 Some(c) => c.rp_id = snap.rp_id.clone(),
@@ -408,7 +422,12 @@ impl CredentialStore for Seam {
         };
         if res.is_ok() {
             self.publish();
-            lk(&self.world).log(Ev::Applied { save: false, cred: snap, prev });
+            let mut w = lk(&self.world);
+            if w.contents.contains(&snap) {
+                w.log(Ev::Applied { save: false, cred: snap, prev });
+            } else {
+                w.fire("store_ok_without_storing");
+            }
         }
         lk(&self.world).log(Ev::UpdateRet {
             result: res.as_ref().map(|_| ()).map_err(status_byte),
